@@ -255,6 +255,56 @@ def method_call_facts(prog: Program, interp: Interp, r: DispatcherRoles) -> Tupl
         if not any(fr[0] == 'try' and any(h in fr[2] for h in val_handlers) for fr in n.frames):
             problems.append(('BIND-BEFORE-RUN', 'bind outside the params-validation try', n.line,
                              'binding is not covered by the handler that converts ValidationError to -32602'))
+    # a coroutine-returning method is executed only when what the invocation returned is awaited: in an async handler the decision
+    # to await must be taken on the RETURNED OBJECT (asyncio.iscoroutine / inspect.isawaitable of the result), not on a property of
+    # the registered callable (a wrapped coroutine function, a callable object with async __call__, a partial ...)
+    facts['await_decision'] = 'on the returned object'     # (the synchronous half never awaits; same record so that the halves compare equal)
+    if f.is_async:
+        res_vars = set()
+        for n, c in invoke:
+            res_vars |= assigned_names(n)
+        awaits = [(n, x) for n in cfg.stmt_nodes() for frag in node_exprs(n) for x in walk_no_defs(frag)
+                  if isinstance(x, ast.Await) and isinstance(x.value, ast.Name) and x.value.id in res_vars]
+        direct = [(n, x) for n, _ in invoke for frag in node_exprs(n) for x in walk_no_defs(frag)
+                  if isinstance(x, ast.Await) and isinstance(x.value, ast.Call) and isinstance(x.value.func, ast.Name) and x.value.func.id in bound_vars]
+        facts['await_decision'] = 'none'
+        if direct:
+            facts['await_decision'] = 'always'
+        for n, x in awaits:
+            from ..flow import Flow
+            decided = []
+            gs = [(g.src.ast, g.label == 'T') for g in guard_edges(cfg, n)]
+            # an await inside a conditional expression carries its test
+            for frag in node_exprs(n):
+                for y in walk_no_defs(frag):
+                    if isinstance(y, ast.IfExp) and any(z is x for z in ast.walk(y.body)):
+                        gs.append((y.test, True))
+                    elif isinstance(y, ast.IfExp) and any(z is x for z in ast.walk(y.orelse)):
+                        gs.append((y.test, False))
+            ok_dec = False
+            for c_, pol_ in gs:
+                if isinstance(c_, ast.Call) and dotted(c_.func) in ('asyncio.iscoroutine', 'inspect.isawaitable', 'inspect.iscoroutine', 'asyncio.isfuture') \
+                        and c_.args and dotted(c_.args[0]) in res_vars and pol_:
+                    ok_dec = True
+                elif isinstance(c_, ast.Call) and 'coroutine' in (dotted(c_.func) or '') or isinstance(c_, ast.Call) and 'awaitable' in (dotted(c_.func) or ''):
+                    decided.append(norm(c_))
+            facts['await_decision'] = 'on the returned object' if ok_dec else (decided[0] if decided else 'unconditional')
+            if not ok_dec and decided:
+                problems.append(('ONCE-INVOKE', 'await decided by a property of the callable, not by the returned object', n.line,
+                                 f'`{norm(x)}` runs only when `{decided[0]}`: a method that returns a coroutine without being a coroutine function '
+                                 f'(an async def behind a plain decorator, an object with async __call__) is never awaited — its body does not run, '
+                                 f'a notification is silently dropped and a call gets a coroutine object as result'))
+    # the invocation (and the await of what it returned) is covered by the catch-all that reports ServerError: a plain function
+    # raising inside `bound_method()` must be mapped like a coroutine raising at the await
+    exc_handlers = [h for h in cfg.nodes if h.kind == 'handler' and any(c_ in ('Exception', 'BaseException') for c_ in h.caught)]
+    covered = True
+    for n, c in invoke:
+        if not any(fr[0] == 'try' and any(h in fr[2] for h in exc_handlers) for fr in n.frames):
+            covered = False
+            problems.append(('ERRMAP', 'method invoked outside the catch-all that reports ServerError', n.line,
+                             f'`{norm(c)}` is not inside the try block whose `except Exception` handler raises ServerError: an unexpected exception '
+                             f'raised by a plain (non-coroutine) method escapes to the outer handler and is reported as -32603 instead of -32000'))
+    facts['invoke_covered'] = covered
     # dominance: lookup -> bind -> invoke
     for n, c in invoke:
         if not cfg.dominated_by(n, [b for b, _ in bind]):
@@ -696,6 +746,12 @@ def errmap_facts(prog: Program, interp: Interp, r: DispatcherRoles) -> Tuple[Dic
             if made != [IP]:
                 problems.append(('ERRMAP', 'validation failure not answered with InvalidParamsError', h.line,
                                  f'parameters that do not bind/validate raise {[_sn(m) for m in made]}; -32602 required'))
+        elif reraise and not made and not all(prog.exc_subclass(c, JRE) for c in h.caught) and \
+                not any(c in ('Exception', 'BaseException') for c in h.caught):
+            problems.append(('ERRMAP', f'pass-through clause catches {"|".join(caught)}', h.line,
+                             f'{short(f3.qualname)} re-raises {"|".join(caught)} unchanged: only protocol errors (JsonRpcError) may pass verbatim; a '
+                             f'wider class lets non-protocol exceptions raised by a method (DeserializationError, IdentityError, other BaseError '
+                             f'subclasses) skip the ServerError wrapping, and they are answered as -32603 instead of -32000'))
         elif all(prog.exc_subclass(c, JRE) for c in h.caught):
             only_reraise = reraise and not made and all(
                 isinstance(n.ast, ast.Raise) or (isinstance(n.ast, ast.Expr) and _is_logging(n.ast.value)) for n in body if n.kind == 'stmt')
